@@ -96,8 +96,26 @@ def run_items(mod, fn, items, jobs=None, chunksize=1):
     if jobs <= 1 or os.environ.get("VERIF_INPROC"):
         _init()
         return [_call((mod, fn, it)) for it in items]
+    if _RECYCLE[0]:
+        # generations of workers: a fresh pool for every jobs * n items (ProcessPoolExecutor's own max_tasks_per_child
+        # can deadlock when a worker retires; a pool that is shut down and rebuilt cannot)
+        out = []
+        gen = max(1, default_jobs() * _RECYCLE[0] * max(1, chunksize))
+        for i in range(0, len(items), gen):
+            part = items[i:i + gen]
+            ex = _new_executor(min(default_jobs(), max(1, len(part))))
+            try:
+                out += list(ex.map(_call, [(mod, fn, it) for it in part], chunksize=chunksize))
+            finally:
+                ex.shutdown(wait=True, cancel_futures=True)
+        return out
     ex = _executor(default_jobs())
     return list(ex.map(_call, [(mod, fn, it) for it in items], chunksize=chunksize))
+
+
+def _new_executor(jobs):
+    ctx = mp.get_context("spawn")
+    return ProcessPoolExecutor(max_workers=jobs, mp_context=ctx, initializer=_init, initargs=(True,))
 
 
 _EX = None
@@ -117,7 +135,6 @@ def _executor(jobs):
         import atexit
 
         ctx = mp.get_context("spawn")
-        kw = {"max_tasks_per_child": _RECYCLE[0]} if _RECYCLE[0] else {}
-        _EX = ProcessPoolExecutor(max_workers=jobs, mp_context=ctx, initializer=_init, initargs=(True,), **kw)
+        _EX = ProcessPoolExecutor(max_workers=jobs, mp_context=ctx, initializer=_init, initargs=(True,))
         atexit.register(lambda: _EX.shutdown(wait=False, cancel_futures=True))
     return _EX
